@@ -68,6 +68,8 @@ def _num_args(args):
 
 def m_abs(interp, args, kw):
     (v,) = args
+    if hasattr(v, "sym_abs"):
+        return v.sym_abs()
     if isinstance(v, SymObj):
         r = interp._dunder(v, "__abs__", [])
         if r is NotImplemented:
@@ -105,6 +107,8 @@ def m_np_minmax(is_min):
 
     def m(interp, args, kw):
         xs = args[0]
+        if hasattr(xs, "sym_max") and not is_min:
+            return xs.sym_max()
         if isinstance(xs, (list, tuple)):
             r = inner(interp, [list(xs)], {})
             return r
@@ -165,6 +169,8 @@ def m_setattr(interp, args, kw):
 
 def m_len(interp, args, kw):
     (v,) = args
+    if hasattr(v, "sym_len"):
+        return v.sym_len()
     if isinstance(v, SymSeq):
         return v.length
     if isinstance(v, SymObj):
@@ -491,4 +497,16 @@ def build_models():
     reg(np.sign, m_np_sign)
     reg(np.float64, m_np_float64)
     reg(warnings.warn, m_warn)
+    import time as _time
+
+    def m_time(interp, args, kw):
+        # wall clock: an arbitrary non-decreasing real
+        p = interp.path
+        t = p.fresh("clock", "real")
+        last = getattr(p, "_last_clock", None)
+        if last is not None:
+            p.assume(t.t >= last.t)
+        p._last_clock = t
+        return t
+    reg(_time.time, m_time)
     return m
